@@ -44,16 +44,21 @@ func vRunCase7(t *testing.T, c vCase) (msg string) {
 				e := NewElement()
 				_ = e.Decode(enc)
 				e.Add(sharedEl).Subtract(sharedEl).Multiply(sharedSc).Double().Negate()
-				r.b = e.Encode()
-				r.b = append(r.b, e.EncodeUncompressed()...)
+				eb, eu := e.Encode(), e.EncodeUncompressed()
+				r.b = append(append([]byte{}, eb...), eu...)
+				vScribble(eb)
+				vScribble(eu)
 				r.b = append(r.b, byte(e.Equal(sharedEl)), byte(sharedEl.Equal(e)))
 				s := NewScalar()
 				_ = s.Decode(scb)
 				s.Add(sharedSc).Multiply(sharedSc).Subtract(sharedSc).Pow(sharedSc).Invert().Square()
-				r.c = s.Encode()
-				r.c = append(r.c, byte(s.LessOrEqual(sharedSc)), byte(s.Equal(sharedSc)))
+				sb := s.Encode()
+				r.c = append(append([]byte{}, sb...), byte(s.LessOrEqual(sharedSc)), byte(s.Equal(sharedSc)))
+				vScribble(sb)
 				_ = s.CSelect(1, sharedSc, sharedSc)
-				r.d = append(Order(), NewElement().Base().Encode()...)
+				ord := Order()
+				r.d = append(append([]byte{}, ord...), NewElement().Base().Encode()...)
+				vScribble(ord) // the caller owns what it was handed
 				r.d = append(r.d, sharedEl.Copy().Encode()...)
 				r.d = append(r.d, sharedID.Encode()...)
 				r.d = append(r.d, NewElement().Set(sharedEl).Encode()...)
@@ -83,6 +88,71 @@ func vRunCase7(t *testing.T, c vCase) (msg string) {
 			if !bytes.Equal(dst[:cap(dst)], bytes.Repeat([]byte{'d'}, cap(dst))) {
 				return "a shared DST buffer was modified"
 			}
+		}
+		// phase 2: every goroutine works on its OWN inputs (different points / scalars), many times: each call must
+		// return what it returns when run alone (a process-wide memo or scratch shared between callers shows up here
+		// even when every access to it is atomic)
+		const w2 = 8
+		type job struct {
+			comp, unc []byte
+			pt        vPt
+			k         *big.Int
+			kb        []byte
+			prod      vPt
+		}
+		jobs := make([]job, w2)
+		for i := range jobs {
+			k := big.NewInt(int64(1000003*i + 17))
+			pt := vMulPt(big.NewInt(int64(i+2)), vG())
+			jobs[i] = job{vSec1(pt, true), vSec1(pt, false), pt, k, vPad32(k), vMulPt(k, pt)}
+		}
+		errs := make([]string, w2)
+		var wg2 sync.WaitGroup
+		for i := 0; i < w2; i++ {
+			wg2.Add(1)
+			go func(i int) {
+				defer wg2.Done()
+				j := jobs[i]
+				for it := 0; it < 150 && errs[i] == ""; it++ {
+					e := NewElement()
+					in := j.comp
+					if it%3 == 2 {
+						in = j.unc
+					}
+					if err := e.Decode(append([]byte{}, in...)); err != nil {
+						errs[i] = "concurrent Decode of a valid encoding failed: " + err.Error()
+						return
+					}
+					if got, ok := vPointOf(e); !ok || !vSame(got, j.pt) {
+						errs[i] = "concurrent Decode returned another caller's point"
+						return
+					}
+					s := NewScalar()
+					if err := s.Decode(j.kb); err != nil || vScalarVal(s).Cmp(j.k) != 0 {
+						errs[i] = "concurrent Scalar.Decode returned a wrong value"
+						return
+					}
+					if it%10 == 0 {
+						if got, ok := vPointOf(e.Multiply(s)); !ok || !vSame(got, j.prod) {
+							errs[i] = "concurrent Multiply returned a wrong product"
+							return
+						}
+						if !bytes.Equal(Order(), vPad32(vN)) {
+							errs[i] = "Order() is not n while other goroutines run"
+							return
+						}
+					}
+				}
+			}(i)
+		}
+		wg2.Wait()
+		for _, e := range errs {
+			if e != "" {
+				return e
+			}
+		}
+		if m := vSanity(t); m != "" {
+			return "after the concurrent phase: " + m
 		}
 	default:
 		return vRunCase8(t, c)
